@@ -31,7 +31,7 @@ package expr
 // sortedKeys: a range over the map that only collects the keys, followed by sort.Strings. The order of the
 // result is fixed by the sort (assumed library postcondition), not by the iteration.
 //@ func sortedKeys
-//@   trusted
+//@   loop 1 invariant own: fresh(keys)
 //@   modifies nothing
 
 // ---- copies (C13) ---------------------------------------------------------------------
@@ -61,7 +61,6 @@ package expr
 //@   requires o != nil
 //@   modifies cell(o), elems(load(o)), each(load(o), Attribute)
 //@ func GeneratedResultType
-//@   trusted
 //@   modifies nothing
 
 //@ func (*dupper).DupType
@@ -204,6 +203,7 @@ package expr
 //@   loop 4 invariant scan: !noreq && (forall i int, j int :: 0 <= i && i <= rangeindex#4 && 0 <= j && j < len(own[i].Schemes) ==> own[i].Schemes[j].Kind != NoKind)
 //@   loop 5 invariant scan.schemes: !noreq && 0 <= rangeindex#4 && rangeindex#4 < len(own) && r == own[rangeindex#4] && (forall j int :: 0 <= j && j <= rangeindex#5 ==> r.Schemes[j].Kind != NoKind) && (forall i int, j int :: 0 <= i && i < rangeindex#4 && 0 <= j && j < len(own[i].Schemes) ==> own[i].Schemes[j].Kind != NoKind)
 
+//@ func (*Object).Attribute
+//@   modifies nothing
 //@ func (*AttributeExpr).Find
-//@   trusted
 //@   modifies nothing
